@@ -32,8 +32,10 @@ from . import c10_translate
 
 PRE_Q = ("From Coq Require Import QArith List.\nFrom EsVerif.Common Require Import Base.\n"
          "From EsVerif.C10 Require Import Exec.\nImport ListNotations.\nOpen Scope Q_scope.\n")
+PRE_CTOR = ("From Coq Require Import QArith List String.\nFrom EsVerif.Common Require Import Base.\n"
+            "From EsVerif.C10 Require Import Construct Exec.\nImport ListNotations.\n")
 PRE_CERT = ("From Coq Require Import Reals List.\nFrom Interval Require Import Tactic.\n"
-            "From EsVerif.C10 Require Import Gen Model Spec Exec.\nImport ListNotations.\nOpen Scope R_scope.\n")
+            "From EsVerif.C10 Require Import Gen Model Spec Lonpole Exec.\nImport ListNotations.\nOpen Scope R_scope.\n")
 
 TOL_SKY = "(1 / 1000000000)"          # 1e-9 degree (statement)
 TOL_PX = 1e-6                           # pixel (statement)
@@ -185,6 +187,13 @@ class Forward(Base):
         for _ in range(ctx.n(6, 40) if round == 0 else 4):
             h, fam, pts = g.gen_special(ctx.rng)
             out.append({"header": h, "pts": pts, "distort": True, "arr": ctx.rng.random() < 0.5, "family": fam})
+        # LONPOLE other than 180 (header key): the Euler-rotation reference of theorem C10_forward_matches_fits_any_lonpole
+        for i in range(ctx.n(6, 40) if round == 0 else 4):
+            h = g.gen_header(ctx.rng, ["tan", "tpv", "sip"][i % 3], ctx.rng.choice(g.CRVAL_FAMILIES), "inside")
+            h["longpole"] = [0.0, 90.0, 270.0, 123.456, 179.0, -90.0][i % 6]
+            fam = "%s/lonpole%g/inside" % (["tan", "tpv", "sip"][i % 3], h["longpole"])
+            out.append({"header": h, "pts": g.gen_points(ctx.rng, h, 5, special=False), "distort": True, "arr": i % 2 == 0, "family": fam})
+            out.append({"header": h, "pts": [[h["crpix1"], h["crpix2"]]], "distort": True, "arr": False, "family": fam, "crpix": True})
         # reference point on the RA = 0 seam written as 0.0 or 360.0, axis-aligned CD matrix, pixels exactly on
         # the meridian through the reference pixel: through the array AND the scalar code
         for _ in range(ctx.n(8, 60) if round == 0 else 6):
@@ -237,6 +246,12 @@ class RoundTrip(Base):
             xtol = g.XTOLS[i % len(g.XTOLS)]
             out.append({"header": h, "pts": g.gen_points(ctx.rng, h, ctx.n(20, 24)), "mode": "find", "xtol": xtol,
                         "family": "%s/find-xtol-%g/x" % (kind, xtol)})
+        # LONPOLE other than 180: the inverse theorems hold for every LONPOLE
+        for i in range(ctx.n(6, 40) if round == 0 else 4):
+            h = g.gen_header(ctx.rng, ["tpv", "sip", "tan"][i % 3], ctx.rng.choice(g.CRVAL_FAMILIES), "inside")
+            h["longpole"] = [0.0, 90.0, 270.0, 123.456, 179.0, -90.0][i % 6]
+            out.append({"header": h, "pts": g.gen_points(ctx.rng, h, 10), "mode": ["find", "fit", "nodistort"][(i // 3) % 3],
+                        "family": "%s/lonpole%g/inside" % (["tpv", "sip", "tan"][i % 3], h["longpole"])})
         # exact special values (CRVAL 0.0 / -0.0, CRPIX 0.0, pixel 0.0, neutral coefficient sets)
         for i in range(ctx.n(6, 40) if round == 0 else 4):
             h, fam, pts = g.gen_special(ctx.rng)
@@ -752,6 +767,110 @@ class Sequence(Base):
         return "v_same %s %s" % (cqlist(a), cqlist(b))
 
 
+CTOR_MUTATIONS = ["none", "del:naxis1", "del:naxis2", "del:crpix1", "del:crpix2", "del:crval1", "del:crval2", "del:ctype1",
+                  "del:ctype2", "del:cd1_2", "del:cd2_1", "del:cd2_2", "del:cd*", "del:cunit1", "del:a_order", "del:b_order",
+                  "proj:SIN", "proj:ZPN", "proj:TAN-TPV", "proj:tan ", "proj:", "cunit:rad", "cunit: DEG ", "cunit:arcsec",
+                  "cd:zero", "cd:zero-col1", "cd:zero-row", "cd:zero-col", "znaxis1-only", "znaxis-both-no-naxis"]
+
+
+def mutate_header(h, m):
+    h = dict(h)
+    if m.startswith("del:"):
+        k = m[4:]
+        for key in list(h):
+            if key == k or (k == "cd*" and key.startswith("cd")):
+                del h[key]
+    elif m.startswith("proj:"):
+        pr = m[5:]
+        h["ctype1"] = "RA--" + ("-" + pr if pr else "")
+        h["ctype2"] = "DEC-" + ("-" + pr if pr else "")
+    elif m.startswith("cunit:"):
+        h["cunit1"] = m[6:]
+    elif m == "cd:zero":
+        h.update(cd1_1=0.0, cd1_2=0.0, cd2_1=0.0, cd2_2=0.0)
+    elif m == "cd:zero-col1":        # (singular matrices without an exact zero pivot, e.g. equal rows, are NOT always
+        h.update(cd1_1=0.0, cd2_1=0.0)   # detected by LAPACK: l = a * (1/a) may differ from 1; only exact cases are generated)
+    elif m == "cd:zero-row":
+        h.update(cd2_1=0.0, cd2_2=0.0)
+    elif m == "cd:zero-col":
+        h.update(cd1_2=0.0, cd2_2=0.0)
+    elif m == "znaxis1-only":
+        h["znaxis1"] = h["naxis1"]
+    elif m == "znaxis-both-no-naxis":
+        h["znaxis1"], h["znaxis2"] = h.pop("naxis1"), h.pop("naxis2")
+    return h
+
+
+def craw(h):
+    """the abstraction Construct.raw of a header dict (what the constructor's checks read)"""
+    def has(k):
+        return cbool(k in h)
+
+    def oq(k):
+        return "(Some %s)" % cQ(float(h[k])) if k in h else "None"
+    proj = h["ctype1"][4:].strip().upper() if "ctype1" in h else ""
+    cunit = ('(Some "%s"%%string)' % h["cunit1"].strip().lower()) if "cunit1" in h else "None"
+    return ("{| q_znaxis1 := %s; q_znaxis2 := %s; q_naxis1 := %s; q_naxis2 := %s; q_crpix1 := %s; q_crpix2 := %s; "
+            "q_crval1 := %s; q_crval2 := %s; q_ctype1 := %s; q_ctype2 := %s; q_projection := \"%s\"%%string; q_cunit1 := %s; "
+            "q_cd11 := %s; q_cd12 := %s; q_cd21 := %s; q_cd22 := %s; q_a_order := %s; q_b_order := %s |}") % (
+        has("znaxis1"), has("znaxis2"), has("naxis1"), has("naxis2"), has("crpix1"), has("crpix2"), has("crval1"), has("crval2"),
+        has("ctype1"), has("ctype2"), proj, cunit, oq("cd1_1"), oq("cd1_2"), oq("cd2_1"), oq("cd2_2"), has("a_order"), has("b_order"))
+
+
+def cbool(b):
+    return "true" if b else "false"
+
+
+class Constructor(Base):
+    """WCS(header) for valid headers and for headers with one or two defects: accepted / KeyError / ValueError as the model
+    of the constructor says (Construct.construct_check, theorems C10_constructor_*), and whether an accepted object can
+    convert at all (CD matrix present)"""
+    name = "constructor"
+
+    def cases(self, ctx, round=0):
+        r = ctx.rng
+        out = []
+        kinds = ["tan", "tpv", "sip", "sip-noinv"]
+        muts = list(CTOR_MUTATIONS)
+        for i, m in enumerate(muts):
+            for rep in range(ctx.n(1, 4) if round == 0 else 1):
+                kind = kinds[(i + rep) % len(kinds)] if not m.endswith("_order") else ["sip", "sip-noinv"][rep % 2]
+                h = g.gen_header(r, kind, "sphere", "inside")
+                out.append({"header": mutate_header(h, m), "family": "%s/ctor-%s/x" % (kind, m)})
+        for _ in range(ctx.n(16, 120) if round == 0 else 8):          # two defects: which one is reported
+            kind = r.choice(kinds)
+            m1, m2 = r.sample(muts[1:], 2)
+            h = mutate_header(mutate_header(g.gen_header(r, kind, "sphere", "inside"), m1), m2)
+            out.append({"header": h, "family": "%s/ctor-%s+%s/x" % (kind, m1, m2)})
+        return out
+
+    def impl(self, c):
+        try:
+            w = _wcsutil().WCS(dict(c["header"]))
+        except KeyError as e:
+            return {"code": 1, "converts": False, "msg": "KeyError: %s" % e}
+        except ValueError as e:
+            return {"code": 2, "converts": False, "msg": "ValueError: %s" % str(e)[:120]}
+        except Exception as e:      # noqa
+            return {"code": 3, "converts": False, "msg": "%s: %s" % (type(e).__name__, str(e)[:120])}
+        try:
+            w.image2sky(1.0, 1.0, distort=False)
+            return {"code": 0, "converts": True}
+        except TypeError as e:
+            return {"code": 0, "converts": False, "msg": "TypeError: %s" % str(e)[:120]}
+        except Exception as e:      # noqa
+            return {"code": 3, "converts": False, "msg": "conversion: %s: %s" % (type(e).__name__, str(e)[:120])}
+
+    def term(self, c, out):
+        return "v_construct %s %s %s" % (craw(c["header"]), core.cz(out["code"]), cbool(out["converts"]))
+
+    def nontrivial(self, c, out):
+        return True
+
+    def show(self, c):
+        return "construct_check %s" % craw(c["header"])
+
+
 class Cdinv(Base):
     """contract of numpy.linalg.inv as used by the model (exact inverse of the CD matrix)"""
     name = "cdinv"
@@ -782,6 +901,10 @@ def cert_lemma(it, level=0, refute=False):
         st = "sky_close (unitvec %s %s) (unitvec %s %s) %s" % (
             cR(float(h["crval1"])), cR(float(h["crval2"])), cR(lon), cR(lat), TOL_SKY)
         tac = "c10_refute_close" if refute else ("c10_close_hi" if level else "c10_close")
+    elif it["distort"] and float(h.get("longpole", 180.0)) != 180.0:
+        st = "sky_close (fits_pix2sky_vec_lp (%s) %s %s) (unitvec %s %s) %s" % (
+            chdr(h), cR(it["pt"][0]), cR(it["pt"][1]), cR(lon), cR(lat), TOL_SKY)
+        tac = "c10_refute_lp" if refute else ("c10_cert_lp_hi" if level else "c10_cert_lp")
     elif it["distort"]:
         st = "sky_close (fits_pix2sky_vec (%s) %s %s) (unitvec %s %s) %s" % (
             chdr(h), cR(it["pt"][0]), cR(it["pt"][1]), cR(lon), cR(lat), TOL_SKY)
@@ -865,11 +988,13 @@ def cert_items_from(c, out):
 
 def cert_pool(fw, ctx, budget, ncrpix):
     r = ctx.rng
-    fixed, byfam, crp = [], {}, []
+    fixed, byfam, crp, lp = [], {}, [], []
     for c, out in fw.results:
         for it in cert_items_from(c, out):
             if c["family"].startswith("corpus"):
                 fixed.append(it)
+            elif "/lonpole" in c["family"]:
+                lp.append(it)
             elif it["kind"] == "crpix":
                 crp.append(it)
             else:
@@ -879,7 +1004,9 @@ def cert_pool(fw, ctx, budget, ncrpix):
     for k in keys:
         r.shuffle(byfam[k])
     r.shuffle(crp)
-    chosen = list(fixed) + crp[:ncrpix]
+    r.shuffle(lp)
+    lp.sort(key=lambda it: it["kind"] != "fwd")        # LONPOLE != 180: forward certificates first, then CRPIX -> CRVAL
+    chosen = list(fixed) + crp[:ncrpix] + lp[:ctx.n(3, 30)]
     while len(chosen) < budget and any(byfam[k] for k in keys):
         for k in keys:
             if byfam[k] and len(chosen) < budget:
@@ -1039,6 +1166,7 @@ def run(ctx, replay=None):
     fw = Forward()
     sa = ScalarArray()
     entries = [fw, RoundTrip(), sa, History(), Cdinv(), Forms(), Sequence()]
+    ctor = Constructor()
     # 3. replay of a certificate
     if replay is not None and replay.get("entry") in ("cert", "jac"):
         it = dict(replay["case"])
@@ -1064,12 +1192,13 @@ def run(ctx, replay=None):
     witems = witness_pass(ctx, entries, witness_cases()) if replay is None else []
     # 5. exact-rational checks
     differential(ctx, PRE_Q, entries, replay)
+    differential(ctx, PRE_CTOR, [ctor], replay)
     if replay is not None:
         return
     ctx.count("observed:scalar_array-bit-identical", sa.identical)
     # 6. certificates
     t0 = time.time()
-    items = witems + cert_pool(fw, ctx, ctx.n(30, 360), ctx.n(4, 40))
+    items = witems + cert_pool(fw, ctx, ctx.n(24, 360), ctx.n(4, 40))
     items += jac_items(ctx, ctx.n(6, 40))
     certify(ctx, items, "cert")
     ctx.count("wall_s:certificates", round(time.time() - t0, 1))
